@@ -189,7 +189,7 @@ fn batch(seed: u64, n: usize, steps: usize) {
         let untouched = v.0[i] == sims[i];
         assert!(same || (any_fail && untouched), "element {i} differs from its own serial walk");
     }
-    println!("BATCH-WORKLOAD seed={seed} elements={n} steps={steps} failing={any_fail} compared={n}");
+    println!("BATCH-WORKLOAD seed={seed} elements={n} steps={steps} failing={any_fail} compared={n} workers={}", rayon::current_num_threads());
 }
 
 fn main() {
